@@ -13,7 +13,7 @@ Scratch copies and build output live under /tmp and are removed at the end.
 import json, os, random, re, shutil, subprocess, sys, tempfile, threading
 
 VERIF = os.path.dirname(os.path.dirname(os.path.abspath(__file__)))
-REPO = "/repo"
+REPO = "/repo"  # replaced in main() by a private snapshot, so that commits to /repo during a long run cannot shift line numbers
 
 FILES = {
     "src/summary.rs": ["C07", "C09", "C17"],
@@ -137,7 +137,7 @@ def worker(wid, queue, lock, outf):
                 open(patch, "w").write(d)
                 rec["checks"] = {}
                 rec["signatures"] = {}
-                menv = dict(os.environ, MUT_TARGET=os.path.join(scr, "sim-target"))
+                menv = dict(os.environ, MUT_TARGET=os.path.join(scr, "sim-target"), MUT_REPO=REPO)
                 for prop in FILES[f]:
                     rc, out = run([os.path.join(VERIF, "tools/mutant.sh"), patch, prop], env=menv, timeout=1500)
                     rec["checks"][prop] = rc
@@ -154,6 +154,17 @@ def worker(wid, queue, lock, outf):
 
 
 def main():
+    global REPO
+    snap = tempfile.mkdtemp(prefix="pkgsim-mg-snap.", dir="/tmp")
+    run(["rsync", "-a", "--exclude", "target", "--exclude", ".git", "/repo/", snap + "/repo/"])
+    REPO = snap + "/repo"
+    try:
+        main2()
+    finally:
+        shutil.rmtree(snap, ignore_errors=True)
+
+
+def main2():
     out = sys.argv[1]
     n = int(sys.argv[2]) if len(sys.argv) > 2 else 200
     workers = int(sys.argv[3]) if len(sys.argv) > 3 else 4
